@@ -269,12 +269,20 @@ func init() {
 			return nil
 		},
 		"math.Float64bits": func(st *State, _ *frame, _ *ssa.Function, a []Value) Value {
+			if _, ok := a[0].(OpaqueFloat); ok {
+				if st.concrete != nil {
+					st.unsupported("bits of an opaque float in a concrete run")
+				}
+				return st.newAux(64) // unknown bit pattern: unconstrained
+			}
 			return term.BV(64, math.Float64bits(a[0].(Float).V))
 		},
 		"math.Float64frombits": func(st *State, _ *frame, _ *ssa.Function, a []Value) Value {
 			t := asTerm(st, a[0])
 			if !t.IsConst() {
-				st.unsupported("symbolic Float64frombits")
+				// a float assembled from symbolic bits: its value is opaque (any later need
+				// for the value ends the path as unsupported)
+				return OpaqueFloat{64}
 			}
 			return Float{math.Float64frombits(t.Val), 64}
 		},
